@@ -18,7 +18,7 @@ class IterCheck(PropCheck):
         return it.monitors(r).get(self.pid, [])
 
     def correspond(self, tier, seed, rng):
-        n = 250 if tier == "quick" else 3000
+        n = 250 if tier == "quick" else 12000
         scenarios = [it.gen_scenario(rng, self.profile) for _ in range(n)]
         results = it.run_many(scenarios)
         def differs(r):
@@ -57,7 +57,7 @@ class IterCheck(PropCheck):
         nq = 0
         if self.pid in ("C09", "C10") and self.profile == "mixed":
             from . import itq
-            qs = [itq.gen_scenario(rng) for _ in range(200 if tier == "quick" else 3000)]
+            qs = [itq.gen_scenario(rng) for _ in range(200 if tier == "quick" else 10000)]
             # those without add_signal are also run in lock-step with the L8q model (Model/IterQ.lean): every
             # decisive load / CAS of the per-signal channels, the closed flag, the pipe calls, the callbacks
             ls = [sc for sc in qs if not any(" add " in l for l in sc)]
@@ -149,7 +149,7 @@ class IterCheck(PropCheck):
 class C09(IterCheck):
     pid = "C09"
     prop_module = "SigHook.Props.C09"
-    extra_modules = ("SigHook.Props.C09q", "SigHook.Props.C09c", "SigHook.Props.C09qc", "SigHook.Props.C09d", "SigHook.Props.C09e")
+    extra_modules = ("SigHook.Props.C09q", "SigHook.Props.C09c", "SigHook.Props.C09qc", "SigHook.Props.C09d", "SigHook.Props.C09e", "SigHook.Props.C09qd", "SigHook.Props.C09qe")
 
 
 class C10(IterCheck):
